@@ -339,13 +339,7 @@ def run(ctx):
     ts_kernel_view(ctx, 'R5')
     fe = ctx.func('message.PayloadNOTIFY.from_exception')
     ctx.check(common.notify_type_of(ctx, 'TsUnacceptable') == 'TS_UNACCEPTABLE', 'R5', 'TsUnacceptable -> TS_UNACCEPTABLE', key=('R5', 'table'), site=ctx.site(fe, fe.node))
-    ok = False
-    for pc, t, _ in Q.returns:
-        caught = [a[0] for a in pc if a[0][0] == 'caught' and a[1]]
-        if caught and 'TsUnacceptable' in tq.text(caught[0]):
-            st = strip_ids(t)
-            ok = st[0] == 'list' and len(st[1]) == 1 and tq.is_call(st[1][0], 'message.PayloadNOTIFY.from_exception') \
-                and list(tq.args(st[1][0]).values())[0][0] == 'exc'
+    ok = common.own_notify_for(ctx, rq, 'TsUnacceptable')
     ctx.check(ok, 'R5', 'the responder answers TsUnacceptable with the single notification built from it',
               key=('R5', 'refusal-reply'), site=ctx.site(rq, rq.node))
 
